@@ -1,6 +1,6 @@
 (* Lemmas for C09 (Props/C09.v states the theorems).  Model: Model/ServerLife.v. *)
 From Coq Require Import List Bool Arith Lia.
-From GV Require Import Model.ServerLife.
+From GV Require Import Gen.FactsC09 Model.ServerLife.
 Import ListNotations.
 
 (* ---------------------------------------------------------------------------------------------- *)
@@ -690,12 +690,12 @@ Proof.
   destruct (proc_open k) eqn:PO; [|exact I].
   set (n := S (gcn k)).
   set (g := fun k0 => mkConn (proc_open k0) (lost k0) (closing k0) (in_handlers k0) n (crashed k0)).
-  set (f := fun t => if n mod gc_interval =? 0 then (if tc t =? c then collect_task t else t) else t).
+  set (f := fun t => if n mod handler_gc_interval =? 0 then (if tc t =? c then collect_task t else t) else t).
   assert (Hf : tfun_ok f).
-  { unfold f. destruct (n mod gc_interval =? 0); [apply on_conn_tfun; apply collect_task_ok | apply tfun_id]. }
-  assert (E : (if n mod gc_interval =? 0 then on_conn_tasks c collect_task (tasks s) else tasks s)
+  { unfold f. destruct (n mod handler_gc_interval =? 0); [apply on_conn_tfun; apply collect_task_ok | apply tfun_id]. }
+  assert (E : (if n mod handler_gc_interval =? 0 then on_conn_tasks c collect_task (tasks s) else tasks s)
               = map f (tasks s)).
-  { unfold f, on_conn_tasks. destruct (n mod gc_interval =? 0); auto. symmetry. apply map_id. }
+  { unfold f, on_conn_tasks. destruct (n mod handler_gc_interval =? 0); auto. symmetry. apply map_id. }
   rewrite E.
   assert (I1 : Inv (mkState (map f (tasks s)) (upd_nth (conns s) c g) (srv s) (wst s))).
   { apply inv_map; auto.
@@ -819,13 +819,13 @@ Lemma inv_connect s : Inv s -> Inv (step s Connect).
 Proof.
   intros I. cbn [step]. destruct (listening (srv s)) eqn:L; [|exact I].
   set (n := S (sgc (srv s))).
-  destruct (if n mod gc_interval =? 0 then server_gc (tasks s) (conns s) 0 else (tasks s, conns s))
+  destruct (if n mod server_gc_interval =? 0 then server_gc (tasks s) (conns s) 0 else (tasks s, conns s))
     as [l' cs'] eqn:G.
   assert (SP : (exists f, tfun_ok f /\ l' = map f (tasks s) /\ forall t, unfinished (f t) = unfinished t) /\
                length cs' = length (conns s) /\
                forall j k, nth_error (conns s) j = Some k ->
                            exists k', nth_error cs' j = Some k' /\ gc_rel l' j k k').
-  { destruct (n mod gc_interval =? 0).
+  { destruct (n mod server_gc_interval =? 0).
     - apply (server_gc_spec (conns s) (tasks s) 0 l' cs'); auto. apply (inv_tasks s I).
     - inversion G; subst. split; [|split; auto].
       + exists (fun t => t). split; [apply tfun_id|]. split; [symmetry; apply map_id|auto].
@@ -885,11 +885,9 @@ Proof.
     destruct (registered t && negb (h2reset t)); [|exact I].
     apply inv_map; auto.
     + apply on_task_tfun. apply rst_task_ok.
-    + destruct (in_tasks t); [apply Forall2_refl_same|].
-      apply Forall2_upd_same. intros k. unfold conn_same; cbn. auto.
+    + apply Forall2_refl_same.
     + apply srv_mono_refl.
-    + intros S0. destruct (not_started s I S0) as [C W]. rewrite C.
-      destruct (in_tasks t); cbn; auto.
+    + intros S0. apply not_started; auto.
     + intros L. apply (inv_cstart s I). auto.
   - cbn [step]. apply (inv_map_tasks s _ I (on_task_tfun c i _ deadline_task_ok)).
   - cbn [step]. destruct (conn_open s c); [|exact I]. apply inv_processor_close; auto.
@@ -1094,7 +1092,7 @@ Proof.
   - (* Start *) destruct (started (srv s)); apply (SAME false).
   - (* Connect *)
     destruct (listening (srv s)); [|apply (SAME false)].
-    destruct (S (sgc (srv s)) mod gc_interval =? 0); [|cbn; apply (SAME false)].
+    destruct (S (sgc (srv s)) mod server_gc_interval =? 0); [|cbn; apply (SAME false)].
     destruct (server_gc (tasks s) (conns s) 0) as [l cs] eqn:G. cbn [tasks].
     assert (Q : forall cs l n l' cs', server_gc l cs n = (l', cs') -> exists f, quiet f /\ l' = map f l).
     { clear. induction cs as [|k r IH]; intros l n l' cs' E; cbn [server_gc] in E.
@@ -1112,7 +1110,7 @@ Proof.
     destruct (conn_at s c) as [k|]; [|apply (SAME false)].
     destruct (find_task c i (tasks s)); [apply (SAME false)|].
     destruct (proc_open k); [|apply (SAME false)]. cbn [tasks].
-    destruct (S (gcn k) mod gc_interval =? 0).
+    destruct (S (gcn k) mod handler_gc_interval =? 0).
     + exists (fun t => if tc t =? c then collect_task t else t), [new_task c i p b dl]. split; auto. split.
       * apply (quiet_if (fun t => tc t =? c)); [apply quiet_collect | apply quiet_id].
       * constructor; [|constructor]. unfold fresh, pend; cbn. auto.
@@ -1517,7 +1515,7 @@ Proof.
     destruct o; cbn [step] in Ht.
     - destruct (started (srv s)); auto.
     - destruct (listening (srv s)); auto.
-      destruct (S (sgc (srv s)) mod gc_interval =? 0); auto.
+      destruct (S (sgc (srv s)) mod server_gc_interval =? 0); auto.
       destruct (server_gc (tasks s) (conns s) 0) as [l cs] eqn:Gc. cbn [tasks] in Ht.
       assert (Q : forall cs l n l' cs', server_gc l cs n = (l', cs') ->
                     (forall t, In t l -> tq t) -> forall t, In t l' -> tq t).
@@ -1532,7 +1530,7 @@ Proof.
       eapply Q; eauto.
     - destruct (conn_at s c) as [k|]; auto. destruct (find_task c i (tasks s)); auto.
       destruct (proc_open k); auto. cbn [tasks] in Ht. apply in_app_or in Ht. destruct Ht as [Ht|[<-|[]]].
-      + destruct (S (gcn k) mod gc_interval =? 0); auto.
+      + destruct (S (gcn k) mod handler_gc_interval =? 0); auto.
         unfold on_conn_tasks in Ht. eapply M; eauto. apply IFC. apply tq_collect.
       + left. reflexivity.
     - destruct (conn_open s c); auto. cbn [tasks] in Ht. unfold on_task in Ht. eapply M; eauto.
@@ -1563,86 +1561,71 @@ Proof.
   intros t Ht. apply (G ops init); auto. intros t0 [].
 Qed.
 
-Definition conn_same_but_crashed (k k' : conn) : Prop :=
-  proc_open k' = proc_open k /\ lost k' = lost k /\ closing k' = closing k /\
-  in_handlers k' = in_handlers k /\ gcn k' = gcn k.
-
-Lemma Forall2_refl_sbc cs : Forall2 conn_same_but_crashed cs cs.
-Proof. induction cs; constructor; auto. unfold conn_same_but_crashed. auto. Qed.
-
-Lemma Forall2_upd_sbc cs n f : (forall k, conn_same_but_crashed k (f k)) ->
-  Forall2 conn_same_but_crashed cs (upd_nth cs n f).
-Proof.
-  intros Hf. revert n. induction cs as [|k r IH]; intros n; cbn; [constructor|].
-  destruct n; constructor; auto; try apply Forall2_refl_sbc. unfold conn_same_but_crashed; auto.
-Qed.
-
-(* RST_STREAM on stream (c,i): no other task, nothing of the server, nothing of the waiter changes *)
+(* RST_STREAM on stream (c,i): no other task, no connection, nothing of the server, nothing of the waiter
+   changes -- in every state; in particular nothing is raised (Handler.cancel pops with a default) *)
 Theorem rst_isolated s c i :
   exists g, tasks (step s (Rst c i)) = map g (tasks s) /\
             (forall t, is_key c i t = false -> g t = t) /\
-            srv (step s (Rst c i)) = srv s /\ wst (step s (Rst c i)) = wst s /\
-            Forall2 conn_same_but_crashed (conns s) (conns (step s (Rst c i))).
+            conns (step s (Rst c i)) = conns s /\
+            srv (step s (Rst c i)) = srv s /\ wst (step s (Rst c i)) = wst s.
 Proof.
   assert (ID : exists g, tasks s = map g (tasks s) /\ (forall t, is_key c i t = false -> g t = t) /\
-                         srv s = srv s /\ wst s = wst s /\ Forall2 conn_same_but_crashed (conns s) (conns s)).
-  { exists (fun t => t). rewrite map_id. repeat split; auto. apply Forall2_refl_sbc. }
+                         conns s = conns s /\ srv s = srv s /\ wst s = wst s).
+  { exists (fun t => t). rewrite map_id. repeat split; auto. }
   cbn [step]. destruct (conn_open s c); auto.
   destruct (find_task c i (tasks s)) as [t|]; auto.
   destruct (registered t && negb (h2reset t)); auto. cbn [tasks srv wst conns].
   exists (fun t0 => if is_key c i t0 then rst_task t0 else t0). repeat split; auto.
-  - intros t0 K. rewrite K. reflexivity.
-  - destruct (in_tasks t); [apply Forall2_refl_sbc|].
-    apply Forall2_upd_sbc. intros k. unfold conn_same_but_crashed; cbn; auto.
+  intros t0 K. rewrite K. reflexivity.
 Qed.
 
-(* ... and while the handler of the reset stream is still in flight it raises nothing and cancels it *)
-Theorem rst_in_flight_partial ops c i t :
+(* the first reset of a stream whose handler is in flight (any phase before Finished) cancels exactly
+   that task: pending CancelledError, moved from _tasks to _cancelled, nothing delivered yet *)
+Theorem rst_cancels_target ops c i t :
   let s := run_ops ops init in
   find_task c i (tasks s) = Some t -> unfinished t = true ->
-  conns (step s (Rst c i)) = conns s /\
-  (conn_open s c = true -> h2reset t = false ->
-   exists t', find_task c i (tasks (step s (Rst c i))) = Some t' /\
-              cancel_req t' = true /\ in_tasks t' = false /\ in_cancelled t' = true /\
-              ncancel t' = ncancel t /\ ph t' = ph t).
+  conn_open s c = true -> h2reset t = false ->
+  exists t', find_task c i (tasks (step s (Rst c i))) = Some t' /\
+             cancel_req t' = true /\ in_tasks t' = false /\ in_cancelled t' = true /\
+             ncancel t' = ncancel t /\ ph t' = ph t.
 Proof.
-  intros s F U.
+  intros s F U CO H2.
   assert (Ht : In t (tasks s)) by (apply find_some in F; tauto).
   pose proof (tq_reachable ops t Ht) as Q.
   pose proof (inv_tasks _ (reachable_inv ops)) as Fa. rewrite Forall_forall in Fa.
   destruct (Fa t Ht) as (_ & _ & h3 & _). destruct (h3 U) as [R _].
-  assert (IT : h2reset t = false -> in_tasks t = true).
-  { intros H. destruct Q as [X|[X|X]]; congruence. }
-  split.
-  - cbn [step]. destruct (conn_open s c); auto. fold s. rewrite F, R. cbn [andb].
-    destruct (h2reset t) eqn:H2; cbn [negb]; auto. rewrite (IT eq_refl). reflexivity.
-  - intros CO H2. cbn [step]. rewrite CO. fold s. rewrite F, R, H2. cbn [andb negb tasks].
-    rewrite find_on_task; [|intros t0; destruct (rst_task_ok t0) as (a & b & _); auto].
-    rewrite F. cbn [option_map]. eexists. split; [reflexivity|].
-    specialize (IT H2). unfold rst_task, terminated.
-    assert (E : in_tasks (if in_wrapper (set_h2reset t true)
-                          then task_cancel (set_werr (set_h2reset t true) true)
-                          else set_h2reset t true) = true).
-    { destruct (in_wrapper _); [unfold task_cancel; destruct (unfinished _)|]; destruct t; cbn in *; auto. }
-    rewrite E. unfold task_cancel, unfinished, in_wrapper in *.
-    destruct t as [xc xi xb xtm xp xcr xib xcd xsl xwe xrg xit xic xhr xcb xnc xnh xlt xcdn xnr]; cbn in *.
-    destruct xp; try discriminate; cbn; auto 10.
+  assert (IT : in_tasks t = true) by (destruct Q as [X|[X|X]]; congruence).
+  cbn [step]. rewrite CO. fold s. rewrite F, R, H2. cbn [andb negb tasks].
+  rewrite find_on_task; [|intros t0; destruct (rst_task_ok t0) as (a & b & _); auto].
+  rewrite F. cbn [option_map]. eexists. split; [reflexivity|].
+  unfold rst_task, terminated.
+  assert (E : in_tasks (if in_wrapper (set_h2reset t true)
+                        then task_cancel (set_werr (set_h2reset t true) true)
+                        else set_h2reset t true) = true).
+  { destruct (in_wrapper _); [unfold task_cancel; destruct (unfinished _)|]; destruct t; cbn in *; auto. }
+  rewrite E. unfold task_cancel, unfinished, in_wrapper in *.
+  destruct t as [xc xi xb xtm xp xcr xib xcd xsl xwe xrg xit xic xhr xcb xnc xnh xlt xcdn xnr]; cbn in *.
+  destruct xp; try discriminate; cbn; auto 10.
 Qed.
 
-(* the window in which it does raise: Server.close() cancelled a task that never ran, the task is done
-   but its done-callback has not released the stream yet, the 10th accept collected it *)
-Definition gc_keyerror_ops : list op :=
-  [Start; Connect] ++ map (fun i => Open 0 i [AS] (Honour 1) false) (seq 0 9) ++
-  [SrvClose; Run 0 8; Open 0 9 [AS] (Honour 1) false; Rst 0 8].
-
-Theorem rst_isolated_refuted :
-  exists ops c i k, nth_error (conns (run_ops ops init)) c = Some k /\ crashed k = false /\
-                    exists k', nth_error (conns (step (run_ops ops init) (Rst c i))) c = Some k' /\
-                               crashed k' = true.
+(* a reset for a stream whose handler task is already done (finished, collected or not, stream not yet
+   released) delivers nothing and cancels nothing *)
+Theorem rst_noop_for_finished t :
+  unfinished t = false ->
+  ph (rst_task t) = ph t /\ cancel_req (rst_task t) = cancel_req t /\ ncancel (rst_task t) = ncancel t /\
+  nhit (rst_task t) = nhit t /\ registered (rst_task t) = registered t /\ nrel (rst_task t) = nrel t /\
+  cb_pending (rst_task t) = cb_pending t /\ late (rst_task t) = late t.
 Proof.
-  exists (removelast gc_keyerror_ops), 0, 8. vm_compute. eexists. split; [reflexivity|]. split; [reflexivity|].
-  eexists. split; reflexivity.
+  intros U. unfold rst_task, terminated, task_cancel, in_wrapper, unfinished in *.
+  destruct t as [xc xi xb xtm xp xcr xib xcd xsl xwe xrg xit xic xhr xcb xnc xnh xlt xcdn xnr]; cbn in *.
+  destruct xp; try discriminate; cbn. destruct xit; cbn; repeat split; reflexivity.
 Qed.
+
+(* the window of the repaired defect D91: Server.close() cancelled a task that never ran, the task is
+   done but its done-callback has not released the stream yet, the 10th accept collected it *)
+Definition gc_window_ops : list op :=
+  [Start; Connect] ++ map (fun i => Open 0 i [AS] (Honour 1) false) (seq 0 9) ++
+  [SrvClose; Run 0 8; Open 0 9 [AS] (Honour 1) false; Rst 0 8; Run 0 8].
 
 (* connection_lost / GOAWAY: every unfinished handler task of the connection is cancelled *)
 Theorem close_cancels_all ops c b t' :
@@ -1766,4 +1749,24 @@ Proof.
   { induction sigs0 as [|a r IH]; intros ex; cbn [fold_left map rev]; auto.
     rewrite graceful_second_signal, IH, <- app_assoc. reflexivity. }
   rewrite G, app_nil_r. reflexivity.
+Qed.
+
+(* ---------------------------------------------------------------------------------------------- *)
+(* 12. the garbage collectors never lose a live handler                                             *)
+
+(* Server.__gc_collect__ (every 10th accepted connection) drops a Handler from Server._handlers only
+   when Handler.check_closed() holds, i.e. no unfinished task in _tasks OR _cancelled; and every
+   unfinished task is in one of the two sets (a reset handler lives in _cancelled only).  So whatever
+   sweeps happened, the Handler of every unfinished task is still known to Server.close() and
+   Server.wait_closed(), and the task is still in a set they look at *)
+Theorem handlers_kept ops t :
+  In t (tasks (run_ops ops init)) -> unfinished t = true ->
+  (in_tasks t = true \/ in_cancelled t = true) /\
+  exists k, conn_at (run_ops ops init) (tc t) = Some k /\ in_handlers k = true /\
+            (proc_open k = false -> in_cancelled t = true).
+Proof.
+  intros Ht U. pose proof (reachable_inv ops) as I.
+  pose proof (inv_tasks _ I) as F. rewrite Forall_forall in F.
+  destruct (F t Ht) as (_ & _ & _ & _ & h5 & _). split; [auto|].
+  destruct (inv_conn _ I t Ht) as (k & Ek & Hk). destruct (Hk U). eauto.
 Qed.
